@@ -3,7 +3,7 @@
 From Coq Require Import String.
 From Coq Require Import List Ascii ZArith Bool Lia.
 From CGV Require Import Base.PyBase Base.PyVal Base.NxGraph Resolve.Bonding Resolve.GraphOps Resolve.Pipeline
-     Resolve.StepCheck Resolve.MapDefs Resolve.Witness Resolve.VirtualProofs Resolve.C11Check.
+     Resolve.StepCheck Resolve.MapDefs Resolve.Witness Resolve.VirtualProofs Resolve.MapProofs Resolve.CopyProofs Resolve.C11Check.
 Import ListNotations.
 Open Scope Z_scope.
 
@@ -47,6 +47,24 @@ Proof. exact C11_reject_run. Qed.
 Example C11_reject_nonvacuous : run_coarse base_V1AB = Err (ESyntax (S "nofrag")).
 Proof. vm_compute. reflexivity. Qed.
 
+(** ---- the mapping, for a virtual node at ANY position *)
+(** every membership recorded in the fine graph is the key of a coarse node with a fragment ... *)
+Theorem C11_records_real : forall fd meta mol fgs n k, wf_dict fd -> resolve_disconnected fd meta = Ok (mol, fgs) ->
+  records mol n k -> In k (flat_map (real_of fd) meta).
+Proof. intros fd meta mol fgs n k Hw H. exact (records_real _ mol n k (resolve_disconnected_inv fd meta mol fgs Hw H)). Qed.
+(** ... never that of a fragment-less node *)
+Theorem C11_virtual_not_recorded : forall fd meta mv, NoDup (node_keys meta) -> In mv meta -> real_of fd mv = [] ->
+  ~ In (nk mv) (flat_map (real_of fd) meta).
+Proof. exact virtual_not_recorded. Qed.
+(** so the coarse graph of a virtual node is empty ... *)
+Theorem C11_virtual_empty : forall R meta mol fgs kv g, annotate_fragments meta mol = Ok fgs -> fine_inv R mol -> ~ In kv R ->
+  In (kv, g) fgs -> node_keys g = [].
+Proof. exact C11_virtual_empty. Qed.
+(** ... and C11_map: every coarse key carries the same fine nodes whether or not virtual nodes are in the coarse node list *)
+Theorem C11_map : forall meta meta' mol fgs fgs' k g g', annotate_fragments meta mol = Ok fgs -> annotate_fragments meta' mol = Ok fgs' ->
+  In (k, g) fgs -> In (k, g') fgs' -> forall n, In n (node_keys g) <-> In n (node_keys g').
+Proof. exact C11_map. Qed.
+
 (** ---- order-0 edges make no bond (corollaries of the proved bond fold of C03) *)
 Theorem C11_no_bond_for_order0 : forall legacy arom a b s acc, edge_loop legacy arom (Z.to_nat 0) a b s acc = Ok (s, acc).
 Proof. exact no_bond_for_order0. Qed.
@@ -61,3 +79,6 @@ Print Assumptions C11_skip_virtual.
 Print Assumptions C11_skip_virtual_anywhere.
 Print Assumptions C11_reject.
 Print Assumptions C11_zero_edge_inert.
+Print Assumptions C11_records_real.
+Print Assumptions C11_virtual_empty.
+Print Assumptions C11_map.
